@@ -130,7 +130,7 @@ func TestC11(t *testing.T) {
 	r.Assume("time is virtual (testing/synctest) in part A; freshness is judged by version number as the protocol does (the scripted service never reuses a version number for different bytes)",
 		"poll window = [call of Refresh, its return]; equal virtual instants count as inside the window",
 		"after a failed poll every secret must still hold its pre-poll value ('the old one')")
-	n := r.N(1500, 40000)
+	n := r.N(6000, 100000)
 	for i := 0; i < n; i++ {
 		if r.Skip(i) {
 			continue
